@@ -29,7 +29,7 @@ func init() {
 		os.Setenv("GOFLAGS", "")
 		build.Default.GOPATH = root
 		ga := args.Default()
-		ga.InputDirs = []string{"example.com/m/keys"}
+		ga.InputDirs = []string{"example.com/m/zzkeytypes"}
 		ga.OutputBase = filepath.Join(root, "src")
 		ga.OutputPackagePath = "example.com/m/sets"
 		ga.GoHeaderFilePath = filepath.Join(root, "boilerplate.txt")
@@ -93,7 +93,7 @@ func genRegenCase(r *common.RNG, nhist int, shape int) ([]string, []string) {
 	}
 	feats = append(feats, fmt.Sprintf("struct-key-members:%d", nf))
 	var src strings.Builder
-	src.WriteString("package keys\n\n// Ref makes the generator emit the builtin sets.\ntype Ref struct {\n\ta int64\n\tb int\n\tc byte\n\td string\n}\n\n")
+	src.WriteString("package zzkeytypes\n\n// Ref makes the generator emit the builtin sets.\ntype Ref struct {\n\ta int64\n\tb int\n\tc byte\n\td string\n}\n\n")
 	if nEmb > 0 {
 		src.WriteString("// Base is embedded in the key.\ntype Base struct {\n")
 		for _, f := range fields {
@@ -120,30 +120,30 @@ func genRegenCase(r *common.RNG, nhist int, shape int) ([]string, []string) {
 	src.WriteString("}\n\n// NotASet has no tag.\ntype NotASet struct {\n\tX int\n}\n")
 
 	var m strings.Builder
-	m.WriteString("package main\n\nimport (\n\t\"example.com/m/keys\"\n\t\"example.com/m/setrun\"\n\t\"example.com/m/sets\"\n)\n\n")
+	m.WriteString("package main\n\nimport (\n\t\"example.com/m/zzkeytypes\"\n\t\"example.com/m/setrun\"\n\t\"example.com/m/sets\"\n)\n\n")
 	m.WriteString("var keyStrings = []string{\"\", \"a\", \"ab\", \"b\", \"ba\", \"c\", \"z\", \"é\"}\n\nfunc keyStringIndex(s string) int {\n\tfor i, x := range keyStrings {\n\t\tif x == s {\n\t\t\treturn i\n\t\t}\n\t}\n\tpanic(\"unknown element \" + s)\n}\n\n")
 	// fromKey: digits most significant first in flatten order
-	m.WriteString("func fromK1(k int) keys.K1 {\n\tvar v keys.K1\n")
+	m.WriteString("func fromK1(k int) zzkeytypes.K1 {\n\tvar v zzkeytypes.K1\n")
 	div := 1
 	for i := len(fields) - 1; i >= 0; i-- {
 		f := fields[i]
 		fmt.Fprintf(&m, "\tv.%s = %s\n", f.name, keyEnc(f.typ, fmt.Sprintf("((k / %d) %% %d)", div, f.radix)))
 		div *= f.radix
 	}
-	m.WriteString("\treturn v\n}\n\nfunc toK1(v keys.K1) int {\n\tk := 0\n")
+	m.WriteString("\treturn v\n}\n\nfunc toK1(v zzkeytypes.K1) int {\n\tk := 0\n")
 	for _, f := range fields {
 		fmt.Fprintf(&m, "\tk = k*%d + (%s)\n", f.radix, keyDec(f.typ, "v."+f.name))
 	}
-	m.WriteString("\treturn k\n}\n\nfunc lessK1(a, b keys.K1) bool {\n")
+	m.WriteString("\treturn k\n}\n\nfunc lessK1(a, b zzkeytypes.K1) bool {\n")
 	for _, f := range fields {
 		fmt.Fprintf(&m, "\tif a.%s != b.%s {\n\t\treturn a.%s < b.%s\n\t}\n", f.name, f.name, f.name, f.name)
 	}
 	m.WriteString("\treturn false\n}\n\nfunc main() {\n\tsetrun.Main(map[string]setrun.Ops{\n")
-	m.WriteString("\t\t\"Int\": setrun.Run[int, sets.Empty, sets.Int](sets.NewInt, func(k int) int { return k - 3 }, func(v int) int { return v + 3 }, func(a, b int) bool { return a < b }),\n")
-	m.WriteString("\t\t\"Int64\": setrun.Run[int64, sets.Empty, sets.Int64](sets.NewInt64, func(k int) int64 { return int64(k)*1000000007 - 5000000000 }, func(v int64) int { return int((v + 5000000000) / 1000000007) }, func(a, b int64) bool { return a < b }),\n")
-	m.WriteString("\t\t\"Byte\": setrun.Run[byte, sets.Empty, sets.Byte](sets.NewByte, func(k int) byte { return byte(k * 37) }, func(v byte) int { return int(v) / 37 }, func(a, b byte) bool { return a < b }),\n")
-	m.WriteString("\t\t\"String\": setrun.Run[string, sets.Empty, sets.String](sets.NewString, func(k int) string { return keyStrings[k] }, keyStringIndex, func(a, b string) bool { return a < b }),\n")
-	m.WriteString("\t\t\"K1\": setrun.Run[keys.K1, sets.Empty, sets.K1](sets.NewK1, fromK1, toK1, lessK1),\n\t})\n}\n")
+	m.WriteString("\t\t\"Int\": setrun.Run[int, sets.Empty, sets.Int](sets.NewInt, func(k int) int { return k - 3 }, func(v int) int { return v + 3 }, func(a, b int) bool { return a < b }, sets.IntKeySet),\n")
+	m.WriteString("\t\t\"Int64\": setrun.Run[int64, sets.Empty, sets.Int64](sets.NewInt64, func(k int) int64 { return int64(k)*1000000007 - 5000000000 }, func(v int64) int { return int((v + 5000000000) / 1000000007) }, func(a, b int64) bool { return a < b }, sets.Int64KeySet),\n")
+	m.WriteString("\t\t\"Byte\": setrun.Run[byte, sets.Empty, sets.Byte](sets.NewByte, func(k int) byte { return byte(k * 37) }, func(v byte) int { return int(v) / 37 }, func(a, b byte) bool { return a < b }, sets.ByteKeySet),\n")
+	m.WriteString("\t\t\"String\": setrun.Run[string, sets.Empty, sets.String](sets.NewString, func(k int) string { return keyStrings[k] }, keyStringIndex, func(a, b string) bool { return a < b }, sets.StringKeySet),\n")
+	m.WriteString("\t\t\"K1\": setrun.Run[zzkeytypes.K1, sets.Empty, sets.K1](sets.NewK1, fromK1, toK1, lessK1, sets.K1KeySet),\n\t})\n}\n")
 
 	lines := []string{common.Line("set", "regen", common.Hex(src.String()), common.Hex(m.String()))}
 	kinds := []string{"K1", "K1", "K1", "Int", "Int64", "Byte", "String"}
@@ -210,7 +210,7 @@ func regenExec(lines []string) ([]string, []common.Failure) {
 	if err := os.WriteFile(filepath.Join(root, "boilerplate.txt"), boiler, 0o644); err != nil {
 		return fail("harness", err.Error())
 	}
-	for rel, c := range map[string]string{"keys/types.go": keysSrc, "setrun/setrun.go": setrun.Source, "cmd/check/main.go": mainSrc} {
+	for rel, c := range map[string]string{"zzkeytypes/types.go": keysSrc, "setrun/setrun.go": setrun.Source, "cmd/check/main.go": mainSrc} {
 		if err := write(rel, c); err != nil {
 			return fail("harness", err.Error())
 		}
